@@ -42,3 +42,9 @@ claim("C04",
   "A conforming document must be accepted under every option set; a document that differs by one violation of a rule the library enforces must be rejected unless an option in the set names exactly that check (and then it must be accepted). 45 rules, every applicable node of the document, 8 (quick) or 64 (thorough) option sets. Violations are identified by rule and location class.",
   "Trusted: the meta-model (positions -> kinds), the rule table and the option->rule table derived from the statement and the option doc comments. Places not in the statement's list (below operation callbacks, encoding objects) are exercised but not demanded. Five open findings are listed in known_findings.json; eight cells were repaired.",
   "DESIGN.md#c04")
+
+claim("C02",
+  "property-based testing with an independent reference resolver as oracle: rapid-generated multi-file layouts (documents and single-element files in nested directories, every reference form and position, chains, cycles, several spellings of relative paths) served from memory; every reference wrapper reachable from the loaded document is compared, by object marker and by serialised content, with the target found by following the reference on the raw files; dangling references must make loading fail",
+  "For each generated layout the load must succeed, every reachable reference must carry a value, that value must be the object (identified by its unique marker) which an RFC 3986 / RFC 6901 walk over the raw files designates from the file that textually contains the reference, and its serialisation must equal the raw target. One reachable reference redirected to a missing name, file or pointer must make the load fail. Loads run under the watchdog (termination). Sampled; graph features are counted in the evidence.",
+  "Trusted: internal/fsgen.Resolve (about 70 lines), the marker bookkeeping (which file contains which object). RefPath() values are not asserted. URL (http) targets only through the reader override.",
+  "DESIGN.md#c02")
